@@ -28,8 +28,33 @@ theorem toks_asgP (lr : Atom × Atom) : ptoks (asgP lr) = (SItem.asg (toX lr.1) 
 
 /-! module parameters -/
 
+def keyP (k : String) : List Piece :=
+  match splitKey k with
+  | some (l, r, nm) => T "[" ++ T (showInt l) ++ T ":" ++ T (showInt r) ++ T "]" ++ W1 ++ T nm
+  | none => T k
+
+theorem chars_keyP (k : String) : pchars (keyP k) = k.toList := by
+  unfold keyP
+  cases hs : splitKey k with
+  | none => simp [chars_T]
+  | some x =>
+    obtain ⟨l, r, nm⟩ := x
+    have hk := splitKey_sound k l r nm hs
+    simp only [pchars_append, chars_T, chars_W1]
+    rw [hk]
+    unfold keyRanged
+    simp [toString, showInt, String.toList_append, List.append_assoc]
+
+theorem toks_keyP (k : String) : ptoks (keyP k) = mpKeyToks k := by
+  unfold keyP mpKeyToks
+  cases hs : splitKey k with
+  | none => simp [toks_T]
+  | some x =>
+    obtain ⟨l, r, nm⟩ := x
+    simp [ptoks_append, toks_T, toks_W1]
+
 def mparamP1 (kv : String × String) : List Piece :=
-  NL ++ W4 ++ T "parameter" ++ W1 ++ T kv.1 ++ W1 ++ T "=" ++ W1 ++ valP kv.2
+  NL ++ W4 ++ T "parameter" ++ W1 ++ keyP kv.1 ++ W1 ++ T "=" ++ W1 ++ valP kv.2
 
 def mparamP (ps : Params) : List Piece :=
   if ps.isEmpty then [] else T "#" ++ T "(" ++ List.intercalate (T ",") (ps.map mparamP1) ++ NL ++ T ")"
@@ -48,7 +73,7 @@ theorem chars_mparamP (ps : Params) : pchars (mparamP ps) = (mparamsText ps).toL
       apply List.map_congr_left
       intro x _
       simp only [Function.comp, mparamP1, mparamLine, pchars_append, chars_NL, chars_W4, chars_W1, chars_T, chars_valP,
-        String.toList_append]
+        chars_keyP, String.toList_append]
       have e1 : "\n    parameter ".toList = "\n".toList ++ "    ".toList ++ "parameter".toList ++ " ".toList := by decide
       have e2 : " = ".toList = " ".toList ++ "=".toList ++ " ".toList := by decide
       rw [e1, e2]
@@ -57,7 +82,7 @@ theorem chars_mparamP (ps : Params) : pchars (mparamP ps) = (mparamsText ps).toL
     simp [List.append_assoc]
 
 theorem mpToks_eq : ∀ (a : Params), a ≠ [] →
-    "parameter" :: mpToks a = List.intercalate [","] (a.map (fun kv => ["parameter", kv.1, "=", kv.2]))
+    "parameter" :: mpToks a = List.intercalate [","] (a.map (fun kv => "parameter" :: (mpKeyToks kv.1 ++ ["=", kv.2])))
   | [], h => absurd rfl h
   | [a], _ => by simp [mpToks, List.intercalate]
   | a :: b :: t, _ => by
@@ -72,10 +97,10 @@ theorem toks_mparamP (ps : Params) : ptoks (mparamP ps) = mparamToks ps := by
   | cons kv rest =>
     simp only [List.isEmpty_cons, Bool.false_eq_true, if_false, ptoks_append, toks_T, toks_NL, ptoks_intercalate,
       List.append_nil, List.map_map]
-    have hm : (kv :: rest).map (ptoks ∘ mparamP1) = (kv :: rest).map (fun kv => ["parameter", kv.1, "=", kv.2]) := by
+    have hm : (kv :: rest).map (ptoks ∘ mparamP1) = (kv :: rest).map (fun kv => "parameter" :: (mpKeyToks kv.1 ++ ["=", kv.2])) := by
       apply List.map_congr_left
       intro x _
-      simp [mparamP1, ptoks_append, toks_NL, toks_W4, toks_W1, toks_T, toks_valP]
+      simp [mparamP1, ptoks_append, toks_NL, toks_W4, toks_W1, toks_T, toks_valP, toks_keyP]
     rw [hm, ← mpToks_eq (kv :: rest) (by simp)]
     simp
 
